@@ -3,6 +3,7 @@ import Driver.C15
 import Driver.C16
 import Driver.C10
 import Driver.C08
+import Driver.C18
 
 /-! Line-protocol driver: `driver <property> model|oracle < ops > out`.
     Stateless properties map each line independently; stateful ones thread a state. -/
@@ -31,4 +32,5 @@ def main (args : List String) : IO UInt32 := do
   | ["C16", mode] => loopState stdin stdout (Driver.C16.step (mode == "oracle")) default; return 0
   | ["C10", mode] => loopState stdin stdout (Driver.C10.step (mode == "oracle")) default; return 0
   | ["C08", mode] => loopState stdin stdout (Driver.C08.step (mode == "oracle")) default; return 0
+  | ["C18", mode] => loopState stdin stdout (Driver.C18.step (mode == "oracle")) default; return 0
   | _ => IO.eprintln "usage: driver <property> model|oracle"; return 2
